@@ -10,6 +10,8 @@ CONSTANTS
   BugRelinkDrop <- MCBugRelinkDrop
   BugNoRepub <- MCBugNoRepub
   BugStaleChan <- MCBugStaleChan
+  BugRelinkKeep <- MCBugRelinkKeep
+  BugHoldBreak <- MCBugHoldBreak
   WSet <- MCWSet
   Gen = TRUE
 VIEW View
